@@ -104,3 +104,67 @@ def tool_for(host):
         _copies[host] = {'tp': mods['pykdebugparser.traces_parser'], 'pk': mods['pykdebugparser.pykdebugparser'],
                          'bsd': mods['pykdebugparser.trace_handlers.bsd']}
     return _copies[host]
+
+
+# ---- the rest of a host: its time zone and files at well-known system paths -------------------------------------------
+HOST_TZ = {'linux-real': None, 'darwin': 'PST8PDT', 'scrambled-1': 'XJT-9', 'scrambled-2': 'XNP-5:45', 'sparse': 'UTC0'}
+SYSTEM_TRACE_CODES = '/usr/share/misc/trace.codes'
+EXTRA_CODES = '0xf1230000\tHOST_ONLY_CODE_A\n0xf1230004\tHOST_ONLY_CODE_B\n0x40c0014\tHOST_RENAMED_open\n'
+
+
+class host_environment:
+    """Context manager: the process looks like it runs on the simulated host - TZ set (POSIX form, no tz database needed),
+    and on hosts that ship it a system-wide trace.codes file visible through open / os.path / pathlib."""
+
+    def __init__(self, host):
+        self.host = host
+
+    def __enter__(self):
+        import builtins
+        import io as _io
+        import os
+        import pathlib
+        import time
+        self._saved_tz = os.environ.get('TZ')
+        tz = HOST_TZ.get(self.host)
+        if tz is not None:
+            os.environ['TZ'] = tz
+            time.tzset()
+        self._patched = []
+        if self.host in ('darwin', 'scrambled-2'):
+            real_open, real_exists, real_isfile = builtins.open, os.path.exists, os.path.isfile
+            p_exists, p_isfile, p_open, p_read = pathlib.Path.exists, pathlib.Path.is_file, pathlib.Path.open, pathlib.Path.read_text
+
+            def is_it(p):
+                try:
+                    return os.fspath(p) == SYSTEM_TRACE_CODES
+                except TypeError:
+                    return False
+
+            def fake_open(file, mode='r', *a, **k):
+                if is_it(file):
+                    return _io.BytesIO(EXTRA_CODES.encode()) if 'b' in mode else _io.StringIO(EXTRA_CODES)
+                return real_open(file, mode, *a, **k)
+            builtins.open = fake_open
+            os.path.exists = lambda p: True if is_it(p) else real_exists(p)
+            os.path.isfile = lambda p: True if is_it(p) else real_isfile(p)
+            pathlib.Path.exists = lambda self_, *a, **k: True if is_it(self_) else p_exists(self_, *a, **k)
+            pathlib.Path.is_file = lambda self_, *a, **k: True if is_it(self_) else p_isfile(self_, *a, **k)
+            pathlib.Path.open = lambda self_, mode='r', *a, **k: fake_open(self_, mode) if is_it(self_) else p_open(self_, mode, *a, **k)
+            pathlib.Path.read_text = lambda self_, *a, **k: EXTRA_CODES if is_it(self_) else p_read(self_, *a, **k)
+            self._patched = [(builtins, 'open', real_open), (os.path, 'exists', real_exists), (os.path, 'isfile', real_isfile),
+                             (pathlib.Path, 'exists', p_exists), (pathlib.Path, 'is_file', p_isfile), (pathlib.Path, 'open', p_open),
+                             (pathlib.Path, 'read_text', p_read)]
+        return self
+
+    def __exit__(self, *exc):
+        import os
+        import time
+        for obj, name, val in self._patched:
+            setattr(obj, name, val)
+        if self._saved_tz is None:
+            os.environ.pop('TZ', None)
+        else:
+            os.environ['TZ'] = self._saved_tz
+        time.tzset()
+        return False
